@@ -16,7 +16,7 @@ import (
 // Mut sets one field to a value. Field grammar:
 //   par2: slice_size | nrec | ids:{dup,unsorted,extra,missing,reverse} | f<i>.length | f<i>.md5 | f<i>.md516k | f<i>.pairs | f<i>.name |
 //         r<j>.exp | r<j>.len | pktlen:<file>:<k> | drop:<type>:<file> | dup:<type>:<file> | ifscid:<i> | recvinindex | recvonlyinindex
-//   par1: h<file>.<version|volnum|count|listoff|listsize|dataoff|datasize> | e<k>.<entrysize|status|size> | addentries | vol.datalen | novols
+//   par1: h<file>.<version|volnum|count|listoff|listsize|dataoff|datasize> | e<k>.<entrysize|status|size|name> | addentries | vol.datalen | novols
 type Mut struct {
 	Field string `json:"field"`
 	Val   uint64 `json:"val"`
@@ -289,6 +289,9 @@ func BuildPAR1(muts []Mut) (map[string][]byte, []decl) {
 				e.Status = m.Val
 			case "size":
 				e.Size = m.Val
+			case "name":
+				// raw UTF-16LE names that no string can produce: unpaired surrogates at the end / start / middle, an odd byte count
+				e.NameRaw = [][]byte{{'a', 0, 0x3d, 0xd8}, {0x00, 0xdc, 'a', 0}, {'a', 0, 0x3d, 0xd8, 'b', 0}, {'a', 0, 'b'}, {0xff, 0xff}, {0x00, 0xd8}, {}}[m.Val%7]
 			}
 		case f == "addentries":
 			extra = int(m.Val)
